@@ -53,7 +53,9 @@ pub fn real_lang(game: Game, language: LanguageKey) -> RealLang {
 pub struct BodyOpts { pub max_stmts: usize, pub registers: bool, pub control_flow: bool, pub strings_only_safe: bool, pub neg_times: bool }
 
 pub struct RealBody<'a, 'b> { pub t: &'a mut Tape<'b>, pub lang: &'a RealLang, pub opts: BodyOpts, next_label: usize, time: i32, pub feats: Vec<&'static str>, budget: usize, max_time: i32, /// (label, time in effect where it is written)
-    pub labels: Vec<(String, i32)> }
+    pub labels: Vec<(String, i32)>,
+    /// subs that can be called by name: (name, parameter types 'i' / 'f')
+    pub callables: Vec<(String, Vec<char>)> }
 
 fn print_arg(a: &Arg, p: &Param) -> String {
     match a {
@@ -65,7 +67,7 @@ fn print_arg(a: &Arg, p: &Param) -> String {
 }
 
 impl<'a, 'b> RealBody<'a, 'b> {
-    pub fn new(t: &'a mut Tape<'b>, lang: &'a RealLang, opts: BodyOpts, max_time: i32) -> Self { let budget = opts.max_stmts; RealBody { t, lang, opts, next_label: 0, time: 0, feats: vec![], budget, max_time, labels: vec![] } }
+    pub fn new(t: &'a mut Tape<'b>, lang: &'a RealLang, opts: BodyOpts, max_time: i32) -> Self { let budget = opts.max_stmts; RealBody { t, lang, opts, next_label: 0, time: 0, feats: vec![], budget, max_time, labels: vec![], callables: vec![] } }
     fn feat(&mut self, f: &'static str) { if !self.feats.contains(&f) { self.feats.push(f); } }
 
     /// a call of a non-intrinsic instruction with arguments valid for its signature
@@ -120,6 +122,13 @@ impl<'a, 'b> RealBody<'a, 'b> {
             match k {
                 0..=5 => { if let Some(c) = self.raw_call() { out.push_str(&format!("{}{}{}\n", pad, diff, c)); } }
                 6 => { let l = self.time_label(); out.push_str(&format!("{}\n", l)); }
+                13 if !self.callables.is_empty() => {
+                    // a call of a sub by name (compiles to parameter assignments + the call instruction; decompiles back to a call)
+                    self.feat("sub_call");
+                    let (name, params) = self.t.pick(&self.callables.clone()).clone();
+                    let args: Vec<String> = params.iter().map(|c| if *c == 'i' { match (self.t.below(3), self.int_reg()) { (0, Some(r)) => r, _ => format!("{}", self.t.below(100) as i32 - 20) } } else { match (self.t.below(3), self.float_reg()) { (0, Some(r)) => r, _ => fmt_f32(*self.t.pick(&[0.0f32, 1.5, -2.0, 64.25])) } }).collect();
+                    out.push_str(&format!("{}{}{}({});\n", pad, diff, name, args.join(", ")));
+                }
                 14 | 15 if self.lang.has_difficulty => {
                     // a difficulty ladder: the same instruction once per difficulty with different arguments (what the
                     // decompiler folds into a difficulty switch), sometimes with a hole, a repeated mask or a time label inside
@@ -354,14 +363,22 @@ pub fn gen_file(t: &mut Tape, fmt: Fmt, game: &str, body_stmts: usize) -> GenFil
                     for f in &b.feats { if !feats.contains(&f.to_string()) { feats.push(f.to_string()); } }
                 out.push_str(&format!("script timeline{} {{\n{}}}\n\n", i, body));
             }
+            // subs with parameters (TH06: at most one int and one float), called by name from other subs
+            let callables: Vec<(String, Vec<char>)> = (0..nsubs).map(|i| {
+                let (mi, mf) = if g == Game::Th06 { (1, 1) } else { (2, 2) };
+                let (ni, nf) = if t.chance(1, 2) { (0, 0) } else { (t.below(mi + 1), t.below(mf + 1)) };
+                (format!("Sub{}", i), std::iter::repeat('i').take(ni).chain(std::iter::repeat('f').take(nf)).collect())
+            }).collect();
             for i in 0..nsubs {
                 let opts = BodyOpts { max_stmts: body_stmts, registers: true, control_flow: true, strings_only_safe: true, neg_times: false };
                 let mut b = RealBody::new(t, &lang, opts, 30000);
+                b.callables = callables.clone();
                 let n = b.t.below(body_stmts + 1);
                 let body = b.stmts(n, 2, 1);
                 labels.push(b.labels.clone());
                     for f in &b.feats { if !feats.contains(&f.to_string()) { feats.push(f.to_string()); } }
-                out.push_str(&format!("void Sub{}() {{\n{}}}\n\n", i, body));
+                let params: Vec<String> = callables[i].1.iter().enumerate().map(|(k, c)| if *c == 'i' { format!("int a{}", k) } else { format!("float f{}", k) }).collect();
+                out.push_str(&format!("void Sub{}({}) {{\n{}}}\n\n", i, params.join(", "), body));
             }
             out
         }
